@@ -16,6 +16,7 @@ TRUSTED = ["C10: the value-adjustment of ISIMIP step 6 is a parameter of the mod
 def correspondence(res, tier, seed):
     debiasers.k5(res, tier, seed, tag="k5c10", n_quick=12, n_thorough=120)
     debiasers.k15_relative(res, tier, seed, tag="k15rc10")
+    debiasers.k17(res, tier, seed, tag="k17c10")
     logging.getLogger("ibicus").setLevel(logging.CRITICAL)
     from ibicus.debias import ISIMIP
     r = C.rng_for(seed, "c10-corr")
